@@ -1,0 +1,6 @@
+//go:build !verif
+
+package goatlang
+
+// verifStep is a no-op unless the package is built with -tags verif.
+func verifStep(v *VM) {}
